@@ -146,7 +146,111 @@ def h11_worker(S, n_msgs=3, backend="mem"):
             S.check("job-runs-exactly-its-actor-once", execs == [owner], info=f"{kd} executed by {execs}, expected [{owner}]")
 
 
+def h11_swap(S):
+    """An idle worker next to a foreign message; between two of its polls the foreign message leaves and an own job arrives."""
+    from repid import Job, Router, Worker
+    from repid.converter import BasicConverter
+
+    phase = S.real("swap_instant_within_the_poll_interval", 0, Fraction(1, 1000))
+    n_foreign = S.pick("foreign_messages_waiting", 2) + 1
+    ran = []
+    out = {}
+
+    async def main(loop):
+        w = World()
+        await w.open(queues=("shared",), record=False)
+        ra = Router()
+
+        @ra.actor(name="ping", queue="shared", converter=BasicConverter)
+        async def a_ping(i: int):
+            ran.append(i)
+
+        for i in range(n_foreign):
+            await Job("report", queue="shared", args={"i": i}, id_=f"f{i}", _connection=w.conn).enqueue()
+        wa = Worker(routers=[ra], handle_signals=[], _connection=w.conn, graceful_shutdown_time=1.0, tasks_limit=2)
+        task = asyncio.create_task(wa.run())
+        await asyncio.sleep(Fraction(1, 100) + phase)
+        # service B takes one of its messages and, in the same instant, somebody enqueues a job for service A
+        cons_b = w.broker.get_consumer("shared", ["report"])
+        await cons_b.start()
+        out["b_got"] = await asyncio.wait_for(cons_b.consume(), timeout=1)
+        await Job("ping", queue="shared", args={"i": 7}, id_="p1", _connection=w.conn).enqueue()
+        await asyncio.sleep(Fraction(1, 20))
+        out["alive"] = not task.done()
+        task.cancel()
+        await asyncio.gather(task, return_exceptions=True)
+
+    run_async(main)
+    S.cover("swapped")
+    S.check("own-job-is-not-blocked-by-foreign-messages", ran == [7], info=f"service A executed {ran} although its job p1 was waiting (foreign messages in the queue: {n_foreign})")
+
+
+def h11_rabbit_foreign(S):
+    """RabbitMQ: a worker hands a foreign message back whatever state it is in (expired, not decodable by this service)."""
+    import repid.data._parameters as P
+    from engine.vtime import PinnedClock, real_timedelta
+    from harness.common import T0, SEC
+    from repid import Job, Router, Worker
+    from repid.converter import BasicConverter
+    from repid.data._key import RoutingKey
+
+    state = ["live", "expired", "foreign-parameters-format"][S.pick("foreign_message_state", 3)]
+    S.tag("foreign_message_state", state)
+    clock = PinnedClock(T0)
+    ran = []
+    out = {}
+
+    async def main(loop):
+        w = World(backend="rabbit")
+        await w.open(queues=("shared",), record=False)
+        ra = Router()
+
+        @ra.actor(name="ping", queue="shared", converter=BasicConverter)
+        async def a_ping(i: int):
+            ran.append(i)
+
+        key = RoutingKey(topic="report", queue="shared", id_="f1")
+        if state == "foreign-parameters-format":
+            # the other service uses its own parameters format: only its own consumers can decode it
+            import json
+            from pamqp import commands as spec
+            await w.ch.basic_publish(json.dumps({"payload": "x", "parameters": "<<not ours>>"}).encode(), routing_key="shared",
+                                     properties=spec.Basic.Properties(message_id="f1", headers={"topic": "report", "queue": "shared"}, priority=5))
+        else:
+            params = P.Parameters(timestamp=P.datetime.now(), ttl=real_timedelta(seconds=1) if state == "expired" else None)
+            await w.broker.enqueue(key, "x", params)
+        await Job("ping", queue="shared", args={"i": 7}, id_="p1", _connection=w.conn).enqueue()
+        clock.set(T0 + 2 * SEC)
+        # the worker stops by itself after its own job (the foreign message is in front of it in the queue)
+        wa = Worker(routers=[ra], handle_signals=[], _connection=w.conn, graceful_shutdown_time=1.0, tasks_limit=2, messages_limit=1)
+        try:
+            await asyncio.wait_for(wa.run(), timeout=5)
+            out["alive"] = True
+        except asyncio.TimeoutError:
+            out["alive"] = False
+        await asyncio.sleep(Fraction(1, 2))
+        snap = w.srv.snapshot()
+        out["where"] = sorted(q for q, ids in snap.items() if q != "__unacked__" and "f1" in ids)
+        out["unacked"] = [i for ids in snap["__unacked__"].values() for i in ids]
+        out["errors"] = [repr(e)[:200] for e in loop.task_errors()]
+
+    run_async(main, clock=clock)
+    S.cover("foreign-" + state)
+    S.check("own-job-runs", ran == [7], info=str(ran))
+    S.check("worker-gets-to-its-own-job-past-the-foreign-message", out["alive"])
+    S.check("foreign-message-stays-available", out["where"] == ["shared"] and "f1" not in out["unacked"],
+            info=f"foreign message ({state}) ended in {out['where']}, unacknowledged: {out['unacked']}; task errors: {out['errors']}")
+
+
 HARNESSES = [
+    Harness(name="H11-rabbit-foreign", scenario=h11_rabbit_foreign,
+            bounds={"foreign message": "live, expired (ttl run out), or carrying parameters in a format only its own service reads", "worker": "serves another topic of the shared queue"},
+            functions=["connections/rabbitmq/consumer.py:_RabbitConsumer.on_new_message"], covers=["foreign-live", "foreign-expired", "foreign-foreign-parameters-format"],
+            stubs=["fake AMQP server; a rejected message is offered again (the 0.1 s pause of the consumer bounds the loop)"]),
+    Harness(name="H11-swap", scenario=h11_swap, workers=4,
+            bounds={"foreign messages waiting": "1 or 2", "swap instant": "any real phase within the consumer's 1 ms poll interval",
+                    "swap": "another service's consumer takes one foreign message and an own job is enqueued, with no virtual time in between"},
+            functions=["connections/in_memory/consumer.py:_InMemoryConsumer.consume"], covers=["swapped"]),
     Harness(name="H11-router", scenario=h11_router, workers=16, budget_s=900,
             params={"quick": {"n_routers": 2, "regs": 2}, "thorough": {"n_routers": 3, "regs": 2}},
             bounds={"routers": "2 (quick) / 3 (thorough), each with 0..2 registrations over names {a, b} and queues {q1, q2} (overrides included)",
